@@ -101,7 +101,11 @@ type c11World struct {
 type c11State struct {
 	Map  string // "" = active | revoked (by a party, record kept) | expired (ExpiresAt past, still stored) | inactive
 	Code string // "" = unused | revoked | expired (activation window past, record still stored) | activated
-	Hist bool   // object/connection history: a migrated mapping with its ex-listener L, a deleted mapping, and
+	// sequence family: requester SeqReq logged in normally, then sent a NON-completing handshake
+	// (SeqKind: p1 = phase-1 only, badhmac = phase-1 + wrong answer, p1-tunnel = phase-1 as tunnel type)
+	// naming client SeqName ("" = an id no client has) on the same connection
+	SeqReq, SeqKind, SeqName string
+	Hist                     bool // object/connection history: a migrated mapping with its ex-listener L, a deleted mapping, and
 	// U2 = the first connection opened after an authenticated client W disconnected (phase-1 + failed phase-2 only)
 }
 
@@ -405,6 +409,9 @@ func c11NewWorldState(t testing.TB, run *vk.Run, extra func(w *c11World), st c11
 		}
 		delete(w.cl, "W")
 	}
+	if st.SeqReq != "" {
+		w.applySeq(st)
+	}
 	if extra != nil {
 		extra(w)
 	}
@@ -423,6 +430,78 @@ func c11NewWorldState(t testing.TB, run *vk.Run, extra func(w *c11World), st c11
 }
 
 func (w *c11World) close() { w.n.Close() }
+
+// applySeq: an authenticated requester claims another identity with a handshake that
+// never completes. Nothing was proven, so nothing may change: the connection stays the
+// requester's, lookups by the named id still lead to that client's own connection,
+// nobody is evicted and nobody receives anything.
+func (w *c11World) applySeq(st c11State) {
+	c := w.cl[st.SeqReq]
+	named := int64(987654321)
+	if st.SeqName != "" {
+		named = w.id[st.SeqName]
+	}
+	ctype := "control"
+	if st.SeqKind == "p1-tunnel" {
+		ctype = "tunnel"
+	}
+	r1, _ := c.Phase1(named, ctype)
+	if st.SeqKind == "badhmac" && r1 != nil && r1.Challenge != "" {
+		if r2, _ := c.Phase2(named, HMACResp("not-the-secret-"+w.mark, r1.Challenge), ctype); r2 != nil && r2.Success {
+			w.run.Violation("C11:unproven-handshake|after=login|variant="+st.SeqKind+"|effect=accepted", map[string]any{"world": w.describe()})
+		}
+	}
+	if st.SeqName != "" && (r1 == nil || r1.Challenge == "") {
+		w.t.Fatalf("c11: sequence world: phase-1 naming %s gave no challenge: %+v", st.SeqName, r1)
+	}
+	if !c11WaitNoGoroutine([]string{"pushConfigToClient", "handleHandshake.gowrap"}, 10*time.Second) {
+		w.t.Fatalf("c11: sequence world: config push goroutines did not finish")
+	}
+	w.run.Count("sequence_worlds_built", 1)
+	viol := func(effect string, extra map[string]any) {
+		d := map[string]any{"world": w.describe(), "sequence": fmt.Sprintf("%s: login, then %s handshake naming %s", st.SeqReq, st.SeqKind, st.SeqName)}
+		for k, v := range extra {
+			d[k] = v
+		}
+		w.run.Violation(fmt.Sprintf("C11:unproven-handshake|after=login|variant=%s|effect=%s", st.SeqKind, effect), d)
+	}
+	out := &c11Outcome{}
+	w.pump(out, st.SeqReq)
+	runtime.Gosched()
+	w.pump(out, st.SeqReq)
+	for role, pk := range out.Others {
+		viol("delivered", map[string]any{"recipient": role, "packets": pk})
+	}
+	for _, p := range out.Own {
+		for _, o := range w.objs {
+			if w.party(o, st.SeqReq) {
+				continue
+			}
+			for _, m := range o.Marks {
+				if !strings.HasSuffix(m, "\"") && strings.Contains(p.Body+p.Raw, m) {
+					viol("leak", map[string]any{"object": o.Name, "marker": m, "packet": p})
+					break
+				}
+			}
+		}
+	}
+	if k := w.n.SM.GetControlConnection(c.ConnID); k == nil || !k.IsAuthenticated() || k.GetClientID() != w.id[st.SeqReq] {
+		got := int64(-1)
+		if k != nil {
+			got = k.GetClientID()
+		}
+		viol("identity", map[string]any{"connection_now_client": got, "proven_client": w.id[st.SeqReq]})
+	}
+	for role := range w.auth {
+		k := w.n.SM.GetControlConnectionByClientID(w.id[role])
+		if k == nil || k.GetConnID() != w.cl[role].ConnID {
+			viol("index", map[string]any{"lookup_of": role, "leads_to_requester_connection": k != nil && k.GetConnID() == c.ConnID})
+		}
+		if w.cl[role].ServerClosedTransport() {
+			viol("evicted", map[string]any{"closed": role})
+		}
+	}
+}
 
 func (w *c11World) idRoles() []string {
 	out := make([]string, 0, len(w.id))
@@ -1217,7 +1296,7 @@ func (w *c11World) judge(cs c11Case, cmd *packet.CommandPacket, out *c11Outcome)
 
 func (w *c11World) describe() map[string]any {
 	return map[string]any{"ids": w.id, "M": w.M.ID, "MS": w.MS.ID, "K": w.K.Code, "KS": w.KS.Code,
-		"M0(server-listened, ListenClientID=0, target V2)": w.M0.ID, "D1": w.D["D1"].ID, "D2": w.D["D2"].ID, "DS": w.D["DS"].ID, "mark": w.mark, "mapping_state": w.state.Map, "code_state": w.state.Code, "history_world": w.state.Hist,
+		"M0(server-listened, ListenClientID=0, target V2)": w.M0.ID, "D1": w.D["D1"].ID, "D2": w.D["D2"].ID, "DS": w.D["DS"].ID, "mark": w.mark, "mapping_state": w.state.Map, "code_state": w.state.Code, "history_world": w.state.Hist, "sequence": fmt.Sprintf("%s/%s/%s", w.state.SeqReq, w.state.SeqKind, w.state.SeqName),
 		"history_roles": "L=ex-listener of MH (migrated to L2 by MigrateClientMappings); MG=deleted mapping; W=authenticated owner of MW, disconnected; U2=first connection after W left, phase-1 for V1 + failed phase-2",
 		"roles": "U0=no handshake; U1=phase-1 for V1 only; V1=listen side of M; V2=target side of M, owner of K; S=unrelated, owns MS/KS/DS"}
 }
@@ -1292,7 +1371,8 @@ type c11Driver struct {
 	reached map[byte]bool
 	suffix  string
 	state   c11State
-	reqs    []string // requesters to iterate (default c11Roles)
+	reqs    []string          // requesters to iterate (default c11Roles)
+	record  map[string]string // fingerprints of unforged cases in the plain world, by (type, ptype, requester, body kind)
 }
 
 func (d *c11Driver) world() *c11World {
@@ -1332,7 +1412,7 @@ func (d *c11Driver) one(ct byte, pt packet.Type, req, kind, forge string, bodyOf
 	}
 	w.judge(cs, cmd, out)
 	fp := w.fingerprint(cs, cmd, out)
-	d.run.Distinct(fmt.Sprintf("%d/%d/%s/%s/%s/%s/%s/%v", ct, pt, req, kind, forge, d.state.Map, d.state.Code, d.state.Hist))
+	d.run.Distinct(fmt.Sprintf("%d/%d/%s/%s/%s/%+v", ct, pt, req, kind, forge, d.state))
 	if out.Success {
 		d.run.Count("success_responses", 1)
 		d.reached[ct] = true
@@ -1405,6 +1485,19 @@ func (d *c11Driver) sweep(types []byte, pts []packet.Type, forges []string, thor
 						continue
 					}
 					baseByKind[kind] = base
+					recKey := fmt.Sprintf("%d/%d/%s/%s", ct, pt, req, kind)
+					if d.record != nil && d.state == (c11State{}) {
+						d.record[recKey] = base
+					}
+					if d.state.SeqReq != "" {
+						if plain, ok := d.record[recKey]; ok {
+							run.Count("sequence_vs_plain_pairs", 1)
+							if plain != base {
+								run.Violation(fmt.Sprintf("C11:unproven-handshake|after=login|variant=%s|effect=command-outcome-differs|cmd=%s", d.state.SeqKind, c11CmdName(ct, pt)+d.suffix),
+									map[string]any{"sequence": d.state, "command_type": ct, "requester": req, "body_kind": kind, "plain_requester": plain, "after_sequence": base, "outcome": bout})
+							}
+						}
+					}
 					// target_client_id is the command's own addressing field for the DNS forwarders and
 					// C2C notify; everywhere else the connection / the named mapping decides
 					addressing := ct == byte(packet.DNSResolve) || ct == byte(packet.DNSQuery) || ct == byte(packet.SendNotifyToClient)
@@ -1483,7 +1576,7 @@ func TestVerifC11Table(t *testing.T) {
 	run := vk.Start(t, "C11", "table")
 	defer run.Finish()
 	run.Rule("every CommandType byte 0..255 as JsonCommand (quick: CommandResp only for registered/special-cased types; thorough: CommandResp for all) x requester {U0 no handshake, U1 phase-1 for V1's id only, V1 listen party, V2 target party, S unrelated authenticated} x body {handler's well-formed body aimed at the victims' objects, same aimed at S's objects, same aimed at a server-listened mapping (ListenClientID 0 -> V2), the first two again with every receiver/identity-looking body field naming a non-party client, DNS default-target, empty, truncated JSON (+4 malformed mutants thorough)} x forgery {none, victim ids in SenderId/ReceiverId, victim's secret in Token, victim's id in Token, identity fields added to the body (+swapped ids, all combined thorough)}; a case is distinct by that tuple; then, for the registered and special-cased types, again with the mappings in state {revoked by a party, expired but stored, inactive} and the connection codes in state {revoked, expired but stored, activated}; worlds (fresh mini server + objects with fresh markers) are rebuilt after every state-changing case")
-	d := &c11Driver{t: t, run: run, settle: map[byte]bool{}, reached: map[byte]bool{}}
+	d := &c11Driver{t: t, run: run, settle: map[byte]bool{}, reached: map[byte]bool{}, record: map[string]string{}}
 	defer func() {
 		if d.w != nil {
 			d.w.close()
@@ -1546,6 +1639,28 @@ func TestVerifC11Table(t *testing.T) {
 	run.Count("history_world_success_responses", run.Counter("success_responses")-okBefore)
 	run.Floor("history_world_success_responses", 20)
 	d.reqs = nil
+	// sequence family: login as A, then a non-completing handshake naming another client
+	seqs := []c11State{
+		{SeqReq: "S", SeqKind: "p1", SeqName: "V1"}, {SeqReq: "S", SeqKind: "p1", SeqName: "V2"},
+		{SeqReq: "V1", SeqKind: "p1", SeqName: "V2"}, {SeqReq: "V2", SeqKind: "p1", SeqName: "V1"}, {SeqReq: "V1", SeqKind: "p1", SeqName: "S"},
+		{SeqReq: "S", SeqKind: "badhmac", SeqName: "V1"}, {SeqReq: "S", SeqKind: "p1", SeqName: ""},
+	}
+	if run.Thorough() {
+		seqs = append(seqs, c11State{SeqReq: "V1", SeqKind: "badhmac", SeqName: "V2"}, c11State{SeqReq: "S", SeqKind: "p1-tunnel", SeqName: "V2"},
+			c11State{SeqReq: "V2", SeqKind: "badhmac", SeqName: "S"}, c11State{SeqReq: "V1", SeqKind: "p1-tunnel", SeqName: "S"})
+	}
+	for _, sq := range seqs {
+		if d.w != nil {
+			d.w.close()
+			d.w = nil
+		}
+		d.state = sq
+		d.reqs = []string{sq.SeqReq}
+		d.sweep(handled, []packet.Type{packet.JsonCommand}, []string{"ids"}, false)
+	}
+	d.reqs = nil
+	run.Floor("sequence_worlds_built", int64(len(seqs)))
+	run.Floor("sequence_vs_plain_pairs", 500)
 	if d.w != nil {
 		d.w.close()
 		d.w = nil
